@@ -16,7 +16,17 @@ from cv import graphs  # noqa: E402
 from cv.core import REPO, VERIF, Check  # noqa: E402
 from cayleypy import GapPuzzles, MatrixGroups, PermutationGroups, Puzzles  # noqa: E402
 
-THEOREMS = ["Cv.refLayers_spec", "Cv.growth_prefix", "Cv.refLayers_orbit"]
+THEOREMS = [
+    "Cv.refLayers_spec",
+    "Cv.growth_prefix",
+    "Cv.refLayers_orbit",
+    "Cv.refLayersCap_prefix",
+    "Cv.refLayersCap_exhausted",
+    "Cv.refLayersCap_layers",
+    "Cv.refLayersCapW_prefix",
+    "Cv.refLayersCapW_exhausted",
+    "Cv.refLayersCapW_layers",
+]
 PG, MG = PermutationGroups, MatrixGroups
 
 
@@ -123,7 +133,7 @@ def sympy_orders(jobs):
 
 def main():
     ck = Check("C17")
-    ck.lean_obligations("CvProps.C17", THEOREMS)
+    ck.lean_obligations(['CvProps.C17', 'CvProps.C17b'], THEOREMS)
     drv = ck.driver()
     cap = 20000 if not ck.thorough else 1500000
     work = 30000 if not ck.thorough else 30000000
